@@ -21,7 +21,8 @@ vvars == <<fields, mode, pc, listed, species, rows>>
 Rng(s) == {s[i] : i \in DOMAIN s}
 \* "Y(CH2(S))": a species whose name has parentheses of its own; "Y(H2)_avg": NOT a mass fraction (the pattern is anchored at
 \* both ends) although it begins like one -- an unknown name, listed as itself, contributing no species
-Universe == {"density", "temp", "x_velocity", "y_velocity", "Y(H2)", "Y(O2)", "Y(CH2(S))", "Y(H2)_avg", "foo", "bar"}
+\* "heat release": a name with a blank in it (names are whole header LINES, not tokens)
+Universe == {"density", "temp", "x_velocity", "y_velocity", "Y(H2)", "Y(O2)", "Y(CH2(S))", "Y(H2)_avg", "foo", "bar", "heat release"}
 \* the pattern table, in dictionary order: <<class key, names it matches>>
 Table == <<<<"density", {"density"}>>, <<"temp", {"temp"}>>, <<"velocity", {"x_velocity", "y_velocity"}>>,
            <<"Y", {"Y(H2)", "Y(O2)", "Y(CH2(S))"}>>>>
